@@ -72,7 +72,16 @@ def main():
             flush()
             raise AssertionError(unknown[0]["sig"])
 
-    argv = [sys.argv[0], f"-runs={a.runs}", f"-seed={a.seed}", "-max_len=8192", "-rss_limit_mb=4096", "-print_final_stats=0", f"-artifact_prefix={a.out}/crash-", os.path.join(a.out, "corpus")]
+    # Hypothesis needs a few hundred bytes to build one history; libFuzzer's length control would start with inputs of a
+    # few bytes (all rejected as too short, no coverage, no growth). So: no length control, and a starting corpus of
+    # pseudo-random byte strings derived from the seed (no structure, not taken from any test).
+    import hashlib
+
+    for i in range(8):
+        blob = b"".join(hashlib.sha256(f"{a.seed}:{i}:{j}".encode()).digest() for j in range(64 + 32 * i))
+        with open(os.path.join(a.out, "corpus", f"seed{i}"), "wb") as f:
+            f.write(blob)
+    argv = [sys.argv[0], f"-runs={a.runs}", f"-seed={a.seed}", "-max_len=8192", "-len_control=0", "-rss_limit_mb=4096", "-print_final_stats=0", f"-artifact_prefix={a.out}/crash-", os.path.join(a.out, "corpus")]
     flush()
     atheris.Setup(argv, prop.hypothesis.fuzz_one_input)
     try:
